@@ -76,10 +76,37 @@ def build_query(vc, depth=DEPTH, extra_assumptions=()):
     lem = [LEMMAS[n].formula for n in sorted(vc.uses) if n in LEMMAS and (LEMMAS[n].patterns or not LEMMAS[n].vars)]
     inst = instantiate(fs, depth, getattr(vc, "reveal", ()), getattr(vc, "unfold_only", None))
     # non-recursive ("macro") definitions may also be needed at terms that only E-matching creates
-    for f in SPEC.values():
-        if f.macro and f.define is not None and (not f.opaque or f.name in getattr(vc, "reveal", ())):
-            vs = [z3.Const("m%d_%s" % (i, f.name), f.decl.domain(i)) for i in range(f.decl.arity())]
-            lem.append(z3.ForAll(vs, f.decl(*vs) == f.define(*vs), patterns=[f.decl(*vs)]))
+    # ... but only of the functions that occur in this query (directly or through another included definition)
+    occurring, seen_ids = set(), set()
+
+    def names_in(t):
+        if t.get_id() in seen_ids:
+            return
+        seen_ids.add(t.get_id())
+        if z3.is_quantifier(t):
+            names_in(t.body())
+            for i in range(t.num_patterns()):
+                names_in(t.pattern(i))
+            return
+        if z3.is_app(t):
+            occurring.add(t.decl().name())
+            for c in t.children():
+                names_in(c)
+    for x in lem + fs + inst:
+        names_in(x)
+    added, progress = set(), True
+    while progress:
+        progress = False
+        for f in SPEC.values():
+            if f.name in added or f.name not in occurring:
+                continue
+            if f.macro and f.define is not None and (not f.opaque or f.name in getattr(vc, "reveal", ())):
+                vs = [z3.Const("m%d_%s" % (i, f.name), f.decl.domain(i)) for i in range(f.decl.arity())]
+                q = z3.ForAll(vs, f.decl(*vs) == f.define(*vs), patterns=[f.decl(*vs)])
+                lem.append(q)
+                names_in(q)
+                added.add(f.name)
+                progress = True
     s = z3.Solver()
     for f in lem + fs + inst:
         s.add(f)
